@@ -109,12 +109,12 @@ func TestC12Close(t *testing.T) {
 		for i := 0; i < ne; i++ {
 			e := &epSpec{kind: rapid.SampledFrom([]string{"custom", "custom", "tcps", "udps", "tcpc", "udpc", "serial", "bcast"}).Draw(t, "kind")}
 			e.peers = rapid.IntRange(0, 2).Draw(t, "peers")
-			e.gate = rapid.IntRange(0, 2).Draw(t, "gate") == 0
+			e.gate = rapid.IntRange(0, 2).Draw(t, "gate") == 0 || (e.kind == "serial" && rapid.Bool().Draw(t, "gate_serial"))
 			e.refused = rapid.Bool().Draw(t, "refused")
 			e.frames = rapid.IntRange(0, 20).Draw(t, "frames")
 			e.peerGoes = rapid.IntRange(0, 3).Draw(t, "peer_goes") == 0
 			e.lateOpen = e.kind == "serial" && rapid.IntRange(0, 2).Draw(t, "late_open") == 0
-			e.readFault = e.kind == "serial" && e.gate && !e.lateOpen && rapid.Bool().Draw(t, "read_fault")
+			e.readFault = e.kind == "serial" && e.gate && !e.lateOpen && rapid.IntRange(0, 3).Draw(t, "read_fault") > 0
 			w.eps = append(w.eps, e)
 		}
 		w.consumer = rapid.SampledFrom([]string{"none", "running", "running", "paused"}).Draw(t, "consumer")
@@ -122,7 +122,7 @@ func TestC12Close(t *testing.T) {
 		w.closeAfter = time.Duration(rapid.SampledFrom([]int{0, 0, 1, 3, 10, 30, 80}).Draw(t, "close_after_ms")) * time.Millisecond
 		w.closeOnPark = rapid.Bool().Draw(t, "close_on_park")
 		w.writers = rapid.IntRange(0, 3).Draw(t, "writers")
-		w.heartbeat = rapid.Bool().Draw(t, "heartbeat")
+		w.heartbeat = rapid.IntRange(0, 2).Draw(t, "heartbeat") > 0
 		// from "a tick is almost always being handed over" to "rare ticks"
 		w.hbPeriod = time.Duration(rapid.SampledFrom([]int{1, 5, 20, 100, 500, 2000}).Draw(t, "hb_period_us")) * time.Microsecond
 		w.shortRetry = rapid.IntRange(0, 3).Draw(t, "short_retry") > 0
